@@ -30,6 +30,20 @@ class NoFromJson(SubclassJSONSerializer):
     """a serialisable class that does not say how it is created from json"""
 
 
+class ForgotClassMethod(SubclassJSONSerializer):
+    """_from_json written as a plain function: it cannot be called on the class"""
+
+    def _from_json(cls, data, **kwargs):
+        return cls()
+
+
+class PlainFunctionFromJson(SubclassJSONSerializer):
+    """_from_json written without a decorator and without a class parameter: called on the class it works like a static method"""
+
+    def _from_json(data, **kwargs):
+        return PlainFunctionFromJson()
+
+
 @dataclass
 class Node0(SubclassJSONSerializer):
     name: str = ""
